@@ -1832,6 +1832,38 @@ def r20_10(ctx: Ctx, rep: Report) -> None:
     rep.floor(8, "constructors")
 
 
+def remark_has_text(ctx: Ctx, rep: Report, rid: str = "R20.14") -> None:
+    """A Remark that is returned has a text: every normally returning path of `Remark.__init__` passes through the text
+    validator (`init_remark_text`, directly or through the line setter, which ends in it).  `Remark("")` took neither
+    branch: it was returned with text "" and renders `remark`, which `Remark()` refuses (`copy()` raises)."""
+    rep.rule(rid)
+    f = ctx.prog.find_func("Remark.__init__")
+    rep.instance()
+    if f is None:
+        rep.note(f"{rid} Remark.__init__ not present - not judged")
+        return
+    ls = ctx.prog.find_func("Remark.line.setter")
+    setter_validates = ls is not None and any(isinstance(x, ast.Call) and src(x.func).endswith("init_remark_text") for x in own_nodes(ls.node))
+    cfg = ctx.cfg(f)
+
+    def validates(nd) -> bool:
+        if nd.ast is not None and nd.kind == "cond" and any(isinstance(x, ast.Attribute) and src(x.value) == "self" and x.attr.lstrip("_") == "text" for x in ast.walk(nd.ast)):
+            # the text the object ended up with is inspected, and one outcome raises
+            return any(s_.kind == "stmt" and isinstance(s_.ast, ast.Raise) for lab in ("T", "F") for s_ in nd.succs(lab))
+        if nd.ast is None or nd.kind != "stmt":
+            return False
+        if any(isinstance(x, ast.Call) and src(x.func).endswith("init_remark_text") for x in ast.walk(nd.ast)):
+            return True
+        return setter_validates and isinstance(nd.ast, ast.Assign) and any(isinstance(t, ast.Attribute) and src(t) == "self.line" for t in nd.ast.targets)
+
+    if cfg.all_paths_pass(cfg.entry, cfg.exit, validates):
+        rep.ok("Remark.__init__", "every returning path validates a text (keyword `text`, or the line through its setter)", where=where(f))
+    else:
+        w = cfg.witness_path(cfg.entry, cfg.exit, validates)
+        conds = [snippet(n_.ast, 30) for n_ in w if n_.kind == "cond" and n_.ast is not None][-3:]
+        rep.violation("Remark.__init__", f"path through [{'; '.join(conds)}] returns without a text", "a Remark is returned that has no text: it renders `remark` (or `10 remark`), which the same constructor refuses - copy() and every re-parse of an ACL that holds it raise / drop the line", where(f), inp="Remark('')  ->  line == 'remark';  Remark('remark') raises ValueError")
+
+
 def group_never_built_empty(ctx: Ctx, rep: Report, rid: str = "R20.12") -> None:
     """An address group built from text has at least one member (its own constructor refuses the bare header it would
     render otherwise): the store of the parsed members in `AddrGroup.line` is dominated by a test of THAT list being
@@ -1904,6 +1936,7 @@ def run(ctx: Ctx, rep: Report, tier: str) -> None:
     option_partition(ctx, sub01)
     rep.absorb(sub01, "R20.11")
     group_never_built_empty(ctx, rep)
+    remark_has_text(ctx, rep)
     # R20.13 premises of "what it returns renders text the same constructor accepts again", as far as they are visible in
     # the shape of the code: no reader bounds the length of a text the writer can lengthen (C06 R06.9); every protocol name
     # the writer can choose is in the reader's grammar (C09 R09.13)
